@@ -410,7 +410,14 @@ func runCase(idx int, raw json.RawMessage) (res batch.Result) {
 			if e == "" {
 				e = "-"
 			}
-			return vf.F("family", famOf(k.V4).String(), "encoding", e, "addpath", opts.AddPath(famOf(k.V4)))
+			ft := vf.F("family", famOf(k.V4).String(), "encoding", e, "addpath", opts.AddPath(famOf(k.V4)))
+			if pos := attrPositions(w); !pos.ascending {
+				ft["attr_order"] = "not-ascending"
+				if pos.reach >= 0 && pos.unreach >= 0 && pos.unreach < pos.reach {
+					ft["attr_order"] = "mp-unreach-before-mp-reach"
+				}
+			}
+			return ft
 		}
 		var keys []key
 		for k := range model {
